@@ -192,7 +192,9 @@ func (k *Keeper) SetTaskResultInfo(
 			)
 		}
 		// check parameters
-		if info.BlsSignature == nil {
+		// an empty signature is no signature: a field that is present but empty on the wire is
+		// decoded as a non-nil empty slice and is stored (and read back) as nil
+		if len(info.BlsSignature) == 0 {
 			return errorsmod.Wrap(
 				types.ErrParamNotEmptyError,
 				fmt.Sprintf("SetTaskResultInfo: invalid param BlsSignature is not be null (BlsSignature: %s)", info.BlsSignature),
